@@ -50,7 +50,7 @@ var verifEngineC31 = &verifsim.Engine{
 		"real files for <target> and <target>.partial under a per-run temp root",
 	},
 	Stubs: []string{
-		"network: in-memory http.RoundTripper installed through store's httputilNewHTTPClient variable; per request the tape decides refuse/reset/timeout/DNS/5xx/4xx/redirect chains/Range honoured or ignored/wrong offset/corrupt, extra, garbage, truncated bodies/cut with retryable or fatal error/stall/drip/declared Content-Length",
+		"network: in-memory http.RoundTripper installed through store's httputilNewHTTPClient variable; per request the tape decides refuse/reset/timeout/DNS/5xx/4xx/429 or 503 with or without Retry-After/redirect chains/Range honoured or ignored/wrong offset/corrupt, extra, garbage, truncated bodies/cut with retryable or fatal error/stall/drip/declared Content-Length",
 		"clock: testing/synctest fake clock (retry back-off, stalls, speed-monitor windows, rate limiter cost no wall time)",
 		"delta downloads disabled (SNAPD_USE_DELTAS_EXPERIMENTAL=0), no user/device authentication, progress bar nil",
 	},
@@ -160,12 +160,14 @@ func verifFileSize(p string) int64 {
 var verifFaultKinds = []string{
 	// request level
 	"refuse", "reset", "req-timeout", "dns", "req-fatal", "http-5xx", "http-4xx", "redirect-loop", "redirect-bad",
+	// 429/503 with or without a Retry-After header (seconds or HTTP-date)
+	"throttle",
 	// response/body level
 	"cut", "truncate", "corrupt", "extra", "garbage", "stall", "drip", "wrong-range", "bad-length",
 }
 
 var verifReqLevel = map[string]bool{"refuse": true, "reset": true, "req-timeout": true, "dns": true, "req-fatal": true,
-	"http-5xx": true, "http-4xx": true, "redirect-loop": true, "redirect-bad": true}
+	"http-5xx": true, "http-4xx": true, "redirect-loop": true, "redirect-bad": true, "throttle": true}
 
 type verifPlan struct {
 	on       bool
@@ -173,6 +175,11 @@ type verifPlan struct {
 	num, den int
 	budget   int
 	fired    int
+	// sticky: once a faulty answer was given in a call, every remaining
+	// attempt of that call fails too, outside the budget, so that retry
+	// budgets really get exhausted: 1 = the same way, 2 = throttled
+	// (429/503 with the same Retry-After form) from then on
+	sticky int
 }
 
 func verifDrawPlan(c *verifsim.Ctx) *verifPlan {
@@ -198,7 +205,13 @@ func verifDrawPlan(c *verifsim.Ctx) *verifPlan {
 		p.num, p.den = 1, 1
 	}
 	p.budget = 1 + c.Draw("fault-budget", 14)
-	c.Logf("plan: faults on kinds=%v rate=%d/%d budget=%d", p.kinds, p.num, p.den, p.budget)
+	switch c.Draw("sticky", 4) {
+	case 2:
+		p.sticky = 1
+	case 3:
+		p.sticky = 2
+	}
+	c.Logf("plan: faults on kinds=%v rate=%d/%d budget=%d sticky=%d", p.kinds, p.num, p.den, p.budget, p.sticky)
 	return p
 }
 
@@ -229,11 +242,21 @@ type verifNet struct {
 	// past it from data received during this very call (a partial that is
 	// already that long when Download starts never leads to a request)
 	beyondAsked bool
+
+	sticky       []string       // faults every remaining attempt of this call gets
+	throttle     *verifThrottle // frozen parameters of a sticky throttle
+	lastThrottle bool           // the latest request was answered 429/503 with Retry-After
+}
+
+type verifThrottle struct {
+	code int
+	ra   int // 0 no Retry-After, 1 "1", 2 "120", 3 HTTP-date
 }
 
 func (n *verifNet) newCall(i int) {
 	n.call = i
 	n.reqs, n.logical, n.faultsCall, n.redirects = 0, 0, 0, 0
+	n.sticky, n.throttle, n.lastThrottle = nil, nil, false
 	n.pending, n.havePending = nil, false
 	n.maxPartial = verifFileSize(n.partial)
 	n.truncated, n.served206, n.ignored200, n.beyondAsked = false, false, false, false
@@ -294,6 +317,10 @@ func (n *verifNet) wait(ctx context.Context, d time.Duration) error {
 
 func (n *verifNet) drawFaults() []string {
 	p := n.plan
+	if p.on && n.sticky != nil {
+		n.c.Count("sticky-repeats")
+		return n.sticky
+	}
 	if !p.on || len(p.kinds) == 0 || p.fired >= p.budget {
 		return nil
 	}
@@ -315,6 +342,12 @@ func (n *verifNet) drawFaults() []string {
 				fs = append(fs, k3)
 			}
 		}
+	}
+	switch p.sticky {
+	case 1:
+		n.sticky = fs
+	case 2:
+		n.sticky = []string{"throttle"}
 	}
 	return fs
 }
@@ -386,6 +419,7 @@ func (n *verifNet) RoundTrip(req *http.Request) (*http.Response, error) {
 		n.c.Fatalf("unexpected request path %q", path)
 	}
 	n.logical++
+	n.lastThrottle = false
 	n.c.Count("requests")
 	fs := n.drawFaults()
 	hops := 0
@@ -464,6 +498,27 @@ func (n *verifNet) serve(req *http.Request, faults []string, psize int64) (*http
 			code := []int{503, 500, 502, 504}[c.Draw("5xx-code", 4)]
 			c.Logf("%s %d", pfx, code)
 			return n.resp(req, code, nil, n.plainBody(req, "server trouble"), 14), nil
+		case "throttle":
+			n.fire(f)
+			tp := n.throttle
+			if tp == nil {
+				tp = &verifThrottle{code: []int{503, 429}[c.Draw("throttle-code", 2)], ra: c.Draw("retry-after", 4)}
+				if n.sticky != nil {
+					n.throttle = tp
+				}
+			}
+			hdr := http.Header{}
+			switch tp.ra {
+			case 1:
+				hdr.Set("Retry-After", "1")
+			case 2:
+				hdr.Set("Retry-After", "120")
+			case 3:
+				hdr.Set("Retry-After", time.Now().Add(97*time.Second).UTC().Format(http.TimeFormat))
+			}
+			n.lastThrottle = tp.ra != 0
+			c.Logf("%s %d Retry-After=%q", pfx, tp.code, hdr.Get("Retry-After"))
+			return n.resp(req, tp.code, hdr, n.plainBody(req, "come back later"), 15), nil
 		case "http-4xx":
 			n.fire(f)
 			code := []int{404, 400, 401, 402, 403, 410, 416, 429}[c.Draw("4xx-code", 8)]
@@ -954,6 +1009,12 @@ func verifRunC31(c *verifsim.Ctx) {
 			}
 			if vnet.logical >= 7 {
 				c.Count("probe:retries-exhausted")
+				if vnet.lastThrottle {
+					c.Count("probe:retries-exhausted-last-answer-throttled-with-retry-after")
+				}
+			}
+			if vnet.lastThrottle && vnet.logical < 7 {
+				c.Count("probe:fails-on-429-with-retry-after")
 			}
 			if verifFileSize(vnet.partial) > 0 {
 				c.Count("probe:failed-call-leaves-partial")
